@@ -255,9 +255,11 @@ edge_bring_up(World &w, size_t ei, bool polling)
 		w.edges[ei].has_dialer = true;
 		sim_event("edge%zu up: node%d dials node%d", ei, e.a, e.b);
 	}
+	// from here on the two nodes may be connected: concurrent senders can get
+	// a message across before wait_edge has seen both ADD_POST events
+	w.edges[ei].ever_up = true;
 	MUST(nng_dialer_start(w.edges[ei].d, 0));
 	wait_edge(w, ei, true, polling);
-	w.edges[ei].ever_up = true;
 }
 
 static void
